@@ -561,7 +561,7 @@ fn judge(c: &C09Case, cd: &CaseDir, built: &Built, have_other: bool) -> Verdict 
 pub fn check(tier: Tier) -> i32 {
     let ctx = Ctx::new("C09", tier);
     replay_corpus::<C09Case, _>(&ctx, run_case);
-    drive(&ctx, "main", tier.pick(8000, 100000), case_strategy, run_case);
+    drive(&ctx, "main", tier.pick(12000, 100000), case_strategy, run_case);
     cleanup_process_scratch();
     ctx.finish(
         "exploration",
